@@ -1252,30 +1252,35 @@ def _r161_from_sources(rep: Report, ix: Any, fs: Any, cfgc: Any, cff: Any, field
     cf_param = next((p.arg for p in fs.params if p.annotation is not None and cff.name in norm(p.annotation)), None)
     rep.require(cf_param, "the ConfigFile parameter of Config.from_sources")
     ctor_names = {cfgc.name} | ({fs.params[0].arg} if fs.kind == "classmethod" and fs.params else set())
-    rets = [(c, v) for c, v in SymExec(ix).run(fs) if consistent(c)]
+    # a method of the file model called on the file object (`config_file.m(...)`) is part of the plumbing: executed like a private helper
+    sx = SymExec(ix, methods_of_inputs=True)
+    sx.run(fs)
+    rets = [(st, v) for st, v in sx.exits if consistent(st.conds)]
     rep.require(rets, "a path through Config.from_sources that returns")
     bad: dict[str, list[tuple[str, str, ast.AST]]] = {f_: [] for f_ in fields}
-    for conds, rv in rets:
+    for st0, rv in rets:
         given = _ctor_arguments(rv, ctor_names, fields)
         rep.require(given is not None, "Config.from_sources returns Config(...) with resolvable arguments (keywords, **{dict literal filled by constant keys})")
         for fld in fields:
-            v = given.get(fld)
-            if v is None:
-                bad[fld].append(("field not set", conds_text(conds), rv))
+            v0 = given.get(fld)
+            if v0 is None:
+                bad[fld].append(("field not set", conds_text(st0.conds), rv))
                 continue
-            for ac, av in alternatives(v):
-                allc = tuple(conds) + tuple(ac)
-                if not consistent(allc):
-                    continue
-                if fld in file_fields:
-                    src = f"{cf_param}.{fld}"
-                    ok = norm(av) == src and isinstance(av, ast.Attribute) \
-                        or implies(allc, ("none", src), True) \
-                        or (implies(allc, ("truthy", src), False) and _empty_literal_of(av, file_fields[fld]))
-                else:
-                    ok = isinstance(av, ast.Name) and av.id == fld and fld in params
-                if not ok:
-                    bad[fld].append((norm(av), conds_text(allc), av))
+            # a helper called in argument position is executed as well: the field receives what it returns on each of its paths
+            for st, v in sx.values(v0, st0, fs, 1):
+                for ac, av in alternatives(v):
+                    allc = tuple(st.conds) + tuple(ac)
+                    if not consistent(allc):
+                        continue
+                    if fld in file_fields:
+                        src = f"{cf_param}.{fld}"
+                        ok = norm(av) == src and isinstance(av, ast.Attribute) \
+                            or implies(allc, ("none", src), True) \
+                            or (implies(allc, ("truthy", src), False) and _empty_literal_of(av, file_fields[fld]))
+                    else:
+                        ok = isinstance(av, ast.Name) and av.id == fld and fld in params
+                    if not ok:
+                        bad[fld].append((norm(av), conds_text(allc), av))
     for fld in fields:
         key = f"Config.from_sources::{fld}"
         b = bad[fld]
@@ -1571,9 +1576,14 @@ def _element(it_: ast.AST, idx: int | None = None) -> ast.AST:
 class SymExec:
     MAX_STATES = 256
 
-    def __init__(self, ix: Any, watch: Any = None, inline_depth: int = 2, record: bool = False, stop_at_hit: bool = False) -> None:
+    def __init__(self, ix: Any, watch: Any = None, inline_depth: int = 2, record: bool = False, stop_at_hit: bool = False,
+                 methods_of_inputs: bool = False) -> None:
         self.ix = ix
         self.watch = watch
+        # a method called on a parameter of the entry function that is annotated as a class of the package (`config_file.m(...)`) is
+        # executed as well, `self` being that parameter: what it returns is part of what the entry function computes from its inputs
+        self.methods_of_inputs = methods_of_inputs
+        self.entry: Any = None
         self.stop_at_hit = stop_at_hit  # a path is followed up to the first statement that makes a watched call (what comes after is not asked for)
         self.inline_depth = inline_depth
         self.recorded: list[ast.AST] | None = [] if record else None  # every expression a statement evaluates (tests included), substituted
@@ -1585,6 +1595,8 @@ class SymExec:
     def run(self, f: Any, bound: dict[str, ast.AST] | None = None, conds: tuple[Cond, ...] = (), depth: int = 0) -> list[tuple[tuple[Cond, ...], ast.AST]]:
         """(path condition, returned value) of every path that returns"""
         rets: list[tuple[State, ast.AST]] = []
+        if depth == 0:
+            self.entry = f
         for s in self._block(f.node.body, [State(dict(bound or {}), tuple(conds))], rets, f, depth):
             rets.append((s, ast.Constant(value=None)))
         if depth == 0:
@@ -1617,7 +1629,24 @@ class SymExec:
             h = _private_class_method(self.ix, f, call)  # `<_PrivateClass>.m(...)`
             if h is not None and (h.module is not f.module or h.qual == f.qual):
                 h = None
+        if h is None and self.methods_of_inputs:
+            h = self._method_of_input(call)
         return h
+
+    def _method_of_input(self, call: ast.Call) -> Any:
+        """the method `<parameter of the entry function>.m(...)` executes, the parameter being annotated as a class of the package"""
+        fn, e = call.func, self.entry
+        if e is None or not (isinstance(fn, ast.Attribute) and isinstance(fn.value, ast.Name)) or fn.attr.startswith("__"):
+            return None
+        p = next((p for p in e.params if p.arg == fn.value.id and p.annotation is not None), None)
+        if p is None:
+            return None
+        ann = p.annotation.value if isinstance(p.annotation, ast.Constant) and isinstance(p.annotation.value, str) else norm(p.annotation)
+        r = self.ix.resolve(e.module, ann)
+        if not r or r[0] != "class":
+            return None
+        m = self.ix.find_method(r[1], fn.attr)
+        return m if m is not None and m.kind == "method" and m.params else None
 
     def values(self, v: ast.AST, s: State, f: Any, depth: int) -> list[tuple[State, ast.AST]]:
         """the (already substituted) value, a call to a helper of f (private function / method, closure) replaced by what the helper
@@ -1646,6 +1675,9 @@ class SymExec:
             bound.setdefault(n, _unknown())
         if h.kind == "classmethod" and h.cls is not None and h.params and isinstance(v.func, ast.Attribute) and norm(v.func.value) == h.cls.name:
             bound[h.params[0].arg] = ast.Name(id=h.cls.name, ctx=ast.Load())  # called through the class itself: `cls` is that class
+        if h.kind == "method" and h.params and isinstance(v.func, ast.Attribute) and isinstance(v.func.value, ast.Name) and v.func.value.id != UNKNOWN \
+                and h.params[0].arg not in bound and (h.cls is None or v.func.value.id != h.cls.name):
+            bound[h.params[0].arg] = v.func.value  # the object the method runs on is the receiver of the call
         if h.kind == "method" and f.kind == "method" and isinstance(v.func, ast.Attribute) and norm(v.func.value) == f.params[0].arg:
             # the same object: what the caller knows about its attributes holds in the helper
             bound.update({f"{h.params[0].arg}.{k.split('.', 1)[1]}": val for k, val in s.env.items() if k.startswith(f.params[0].arg + ".")})
